@@ -71,3 +71,12 @@ func oracleVerify(issuer string, text string, sig []byte) bool {
 	}
 	return ed25519.Verify(ed25519.PublicKey(key), []byte(text), sig)
 }
+
+// encodeNkeyRaw: a well-formed nkey string (prefix byte, payload of ANY length, CRC) - to forge issuers whose
+// key is not 32 bytes long.
+func encodeNkeyRaw(prefix byte, key []byte) string {
+	body := append([]byte{prefix}, key...)
+	crc := crc16x(body)
+	body = append(body, byte(crc), byte(crc>>8))
+	return oracleB32.EncodeToString(body)
+}
